@@ -8,8 +8,8 @@ places where the pinned crate returned an array of ANOTHER type than the field's
 
   WFS_typeOf                      WFS f a, StrictDT f.dataType ⇒ typeOf a = f.dataType       (arbitrary arrays)
   accepted_strict                 newRoot fields = ok, PlainF fields ⇒ StrictDT of every field  (`build_builder`)
-  sparse_union_refused / sparse_union_pinned_not_WF             FIXED  d258f49
-  nullable_entries_refused / nullable_entries_pinned_not_WF     FIXED  01474fc
+  sparse_union_refused / sparse_union_pinned_not_WF             FIXED  c63d82e
+  nullable_entries_refused / nullable_entries_pinned_not_WF     FIXED  25f1351
   entries_metadata_not_WF                                       KNOWN  (why `C03_wf'` carries `PlainF`)
 -/
 namespace SaModel.Props.C03
@@ -33,7 +33,7 @@ theorem accepted_strict (fields : List Field) (root : B) (h : newRoot fields = .
     (hp : ∀ f ∈ fields, Lemmas.C03.PlainF f) : ∀ f ∈ fields, Lemmas.C03.StrictDT f.dataType :=
   Lemmas.C03.newRoot_strict fields root h hp
 
-/-! ### sparse unions (FIXED, repo d258f49) -/
+/-! ### sparse unions (FIXED, repo c63d82e) -/
 
 /-- `u: Union([V0: Int32, V1: Null?], Sparse)` -/
 def exSparse : Field :=
@@ -63,7 +63,7 @@ declared field — its type says `Dense`, the field says `Sparse`.  Confirmed on
 case adv-sparse; corpus/build/c03_types.jsonl). -/
 theorem sparse_union_pinned_not_WF : exSparseRun = .ok (true, false, false) := by decide +kernel
 
-/-! ### nullable Map entries (FIXED, repo 01474fc) -/
+/-! ### nullable Map entries (FIXED, repo 25f1351) -/
 
 /-- `m: Map(entries?: Struct{key: Int8, value: Boolean?})` — the Arrow format forbids a nullable entries field -/
 def exNullEntries : Field :=
